@@ -168,11 +168,17 @@ def query_event(ev, s, o, h, op, shape, arg, g, method, dtype_variant):
     return e
 
 
+Smooth = None        # module-level (so that instances can be pickled), created on first use
+
+
 def smooth_subclass():
     """a user subclass that overrides the six primary rates (add-one smoothing); the aliases must follow"""
+    global Smooth
+    if Smooth is not None:
+        return Smooth
     from score_analysis import Scores
 
-    class Smooth(Scores):
+    class Smooth(Scores):   # noqa: F811
         def _sm(self, num, den):
             return (np.asarray(num) + 1.0) / (np.asarray(den) + 2.0)
 
@@ -199,6 +205,8 @@ def smooth_subclass():
         def tonr(self, threshold):
             c = self.cm(threshold)
             return self._sm(c.ton(), c.pop())
+    Smooth.__qualname__ = "Smooth"
+    globals()["Smooth"] = Smooth
     return Smooth
 
 
@@ -213,6 +221,8 @@ def steps_of(beh):
             out.append(["SetEasy", last["h"], "", [], [int(x) for x in last["arg"]]])
         elif last["op"] == "set_config":
             out.append(["SetConfig", last["h"], "", [], [str(x) for x in last["arg"]]])
+        elif last["op"] == "copy":
+            out.append(["Copy", last["h"], "", [], [str(last["arg"][0])]])
         elif last["op"] == "shift_scores":
             out.append(["ShiftScores", last["h"], "", [], [int(last["arg"][0])]])
         elif last["op"] == "set_scores":
@@ -276,6 +286,23 @@ def replay_behaviour(o0, steps_in, cid, ids, seed):
                 e["exc"] = sd.exc_str(ex)
                 break
             steps.append(["SetConfig", h, sc, ec])
+        elif act == "Copy":
+            import copy
+            import pickle
+            h, how = h_, arg_[0]
+            e = ev("Copy", h=h, how=how, post=dict(sd.EMPTY_POST), src_post=dict(sd.EMPTY_POST))
+            try:
+                src_ = real[h - 1]
+                s2 = copy.copy(src_) if how == "copy" else copy.deepcopy(src_) if how == "deepcopy" else \
+                    pickle.loads(pickle.dumps(src_, protocol=[2, pickle.HIGHEST_PROTOCOL][(cid + k) % 2]))
+                e["post"] = sd.alpha_obj(s2, sd.inv_map(g))
+                e["src_post"] = sd.alpha_obj(src_, sd.inv_map(g))
+                real.append(s2)
+                objs.append(dict(objs[h - 1]))
+            except Exception as ex:  # noqa
+                e["exc"] = sd.exc_str(ex)
+                break
+            steps.append(["Copy", h, how])
         elif act == "ShiftScores":
             h, d = h_, int(arg_[0])
             e = ev("ShiftScores", h=h, d=d, posts=[])
